@@ -39,7 +39,7 @@ META = {
                           + ['antisymmetry_checked']),
     'shards': {'quick': 16, 'thorough': 16},
     'exhaustive': {'quick': 'all tables <= 3x3 x all ordered pairs x all predicates',
-                   'thorough': 'all tables <= 3x3, 3x4, 4x3 x all ordered pairs x all predicates'},
+                   'thorough': 'all tables <= 3x3, 3x4, 4x3, 4x4 x all ordered pairs x all predicates'},
     'assumptions': ['pairs from different lattices are out of scope'],
 }
 
